@@ -19,8 +19,17 @@ if __name__ == "__main__":
         meta = json.loads((ROOT / "seeded" / name / "meta.json").read_text())
         summ = " ".join(str(meta.get("summary", "")).split())[:230].replace("|", "/")
         fr = "; ".join(f"{k} -> {','.join(v)}" for k, v in sorted(fired.items())) if isinstance(fired, dict) else str(fired)
-        lines.append(f"| {name} | {prop} | {summ} | {fr or '**missed**'}{'' if own else ' (only under another property)'} |")
-        res[name] = {"property": prop, "own_property_check_fires": bool(own), "rules": fired if isinstance(fired, dict) else {}}
+        errs = r[4] if len(r) > 4 else []
+        und = "; ".join(sorted({e.split(":")[0] for e in errs}))
+        if fr:
+            cell = fr + ("" if own else " (only under another property)")
+        elif errs:
+            cell = f"*undecided* - exit 2, rules that could not be matched: {und}"
+        else:
+            cell = "**missed**"
+        lines.append(f"| {name} | {prop} | {summ} | {cell} |")
+        res[name] = {"property": prop, "own_property_check_fires": bool(own), "rules": fired if isinstance(fired, dict) else {}, "undecided_rules": sorted({e.split(":")[0] for e in errs}) if not fr else []}
     (ROOT / "seeded" / "INDEX.md").write_text("\n".join(lines) + "\n")
     (ROOT / "seeded" / "results.json").write_text(json.dumps(res, indent=1) + "\n")
-    print(len(rows), "changes;", sum(1 for v in res.values() if v["rules"]), "caught;", sum(1 for v in res.values() if v["own_property_check_fires"]), "by their own property's check")
+    print(len(rows), "changes;", sum(1 for v in res.values() if v["rules"]), "with a VIOLATION;", sum(1 for v in res.values() if v["own_property_check_fires"]), "under their own property;",
+          sum(1 for v in res.values() if not v["rules"] and v["undecided_rules"]), "undecided (exit 2);", sum(1 for v in res.values() if not v["rules"] and not v["undecided_rules"]), "missed")
